@@ -488,19 +488,35 @@ def classify_c04(t, k, en, key):
     if holder is None:
         return "never-held"
     i, name = holder
-    ops = " ".join(t.ops[:k + 1])
-    if re.search(r"\bnl %s\b" % name, ops):
-        return "holder-deleted-after-label-edit"        # D10
-    names = [e["name"] for e in (t.snap[k] or []) if any(p and key in p["keys"] for p in (e["v4"], e["v6"]))]
-    if len(names) > 1:
-        return "occupied-in-several-clustercidrs"       # D11
-    if "dnt" in ops.split():
-        return "holder-deleted-stale-tombstone"
+    # the step at which the informer store lost the holder: a deletion was delivered there
+    for j in range(k, i, -1):
+        before = {n["name"]: n for n in t.cache[j - 1][0]}
+        after = {n["name"] for n in t.cache[j][0]}
+        if name in before and name not in after:
+            f = t.ops[j].split()
+            # the notification carried only the store's last known state (missed delete / relist), and that state predates
+            # the write of the block: it shows no pod CIDR to release
+            if f[0] in ("dnt", "rln") and not any(overlap(key, c) for c in before[name]["cidrs"]):
+                return "holder-deleted-stale-tombstone"
+            break
     # deleted between the start-up listing and the start of the informers: no notification ever arrives
     for j in range(i, k + 1):
         f = t.ops[j].split()
         if f[0] == "n-" and f[1] == name and not running(t, j):
             return "holder-deleted-before-informers-started"
+    # deleted and created again under the same name while the watch was broken: the relist shows one update of the
+    # stored object, never a deletion of the old incarnation
+    gone = [j for j in range(i, k + 1) if t.ops[j].split()[:2] == ["n-", name]]
+    if gone:
+        a = gone[0]
+        back = [j for j in range(a, k + 1) if t.ops[j].split()[:2] == ["n+", name]]
+        if back:
+            b = back[0]
+            lost = any(name in {n["name"] for n in t.cache[j - 1][0]} and name not in {n["name"] for n in t.cache[j][0]} for j in range(a, b + 1))
+            relisted = any(t.ops[j].split()[0] == "rln" for j in range(b, k + 1))
+            still = all(name in {n["name"] for n in t.cache[j][0]} for j in range(a, b + 1))
+            if relisted and still and not lost:
+                return "holder-replaced-seen-as-update"
     return "holder-deleted-not-released"
 
 
